@@ -150,7 +150,7 @@ var wantOps = []wantOp{
 	{"post", "/alpha/items/{id}", "CreateAlpha", "Alpha", false, "schemeA[read]", []string{"id:path:true", "limit:query:false", "x-trace:header:true"}, "required", "201", []string{"404"}},
 	{"delete", "/alpha/items/{id}", "DeleteAlpha", "Alpha", true, "schemeB[admin,write]", []string{"id:path:true"}, "", "204", nil},
 	{"put", "/beta/things", "UpdateBeta", "Beta", false, "schemeD[read]", nil, "required", "200", nil},
-	{"get", "/beta/things", "ListBeta", "Beta", false, "schemeD[read]", []string{"filter:query:true"}, "", "200", nil},
+	{"get", "/beta/things", "ListBeta", "Beta", false, "schemeD[read]", []string{"filter:query:true", "rank:query:true"}, "", "200", nil},
 	{"patch", "/beta/things/{thingId}/", "PatchBeta", "Beta", false, "schemeD[read]", []string{"thingId:path:true"}, "optional", "202", []string{"409", "422"}},
 }
 
